@@ -307,6 +307,12 @@ NOT_YET = {}
 ALL = [f"C{i:02d}" for i in range(1, 21)]
 
 
+PROOFS = [("ShuffleBuffer_Proofs.tla", ["C14"]), ("ShuffleBuffer_BagProofs.tla", ["C02"]),
+          ("RoundRobin_Proofs.tla", ["C14"]), ("BatchMap_Proofs.tla", ["C14"]),
+          ("ParallelMap_Proofs.tla", ["C14", "C15"]), ("ParallelMap_OrderProofs.tla", ["C15"]),
+          ("LazyPool_Proofs.tla", ["C13", "C14"]), ("LazyPool_OnceProofs.tla", ["C13"])]
+
+
 def main():
     checks = []
     for pid in ALL:
@@ -344,7 +350,11 @@ def main():
         },
         "engines": [{"name": e, "path": f"spec/{e}", "serves_properties": sorted(ps),
                      "kind_free_text": "TLA+ specification checked with TLC and bound to the implementation by "
-                                       "replay / trace validation"} for e, ps in sorted(engines.items())],
+                                       "replay / trace validation"} for e, ps in sorted(engines.items())] +
+                   [{"name": e, "path": f"spec/proofs/{e}", "serves_properties": ps,
+                     "kind_free_text": "TLAPS proof module (inductive invariant for all values of the constants) "
+                                       "extending the specification of the same name; re-checked by tlapm on "
+                                       "every run of the checks it serves"} for e, ps in PROOFS],
         "checks": checks,
         "not_applicable": na,
         "notes": "All checks are driven by ./check <ID>; specifications live in spec/, binding harnesses in harness/. "
